@@ -402,7 +402,8 @@ fn emit_cmd_cases(sys: &Sys, it: &mut It, before: &Snap, after: &Snap, op: &Valu
             }
             let empty_cert = post_j["resources"].as_object().map(|o| o.values().any(|rc| rc["certificates"]["issued"].as_object().map(|m| m.values().any(|c| res_json_mask(&c["resources"]) == 0)).unwrap_or(false))).unwrap_or(false);
             if empty_cert { class["certificate_without_resources_issued"] = json!(true); }
-            if roa_outside(&post_j) && marks.roll_shrunk.contains(h) { class["roa_outside_cert_after_activation_under_smaller_cert"] = json!(true); }
+            // (F04c is repaired: a ROA outside the current certificate is a violation like any other)
+            let _ = roa_outside(&post_j) && marks.roll_shrunk.contains(h);
             let rec = json!({"kind": "cmd", "history": hist, "ca": h, "op": op, "command": ty, "error": is_err, "class": class,
                 "details": scv["details"], "events": scv["effect"]["events"].as_array().map(|a| a.iter().map(|e| jstr(&e["type"])).collect::<Vec<_>>())});
             let mut o = out.lock().unwrap();
@@ -487,10 +488,15 @@ fn settle(sys: &Sys, it: &mut It, op: &Value, hist: u64, marks: &mut Marks, out:
                         if pj["children"][x]["used_keys"][old].get("in_use").is_none() { blocked_revoke = true; }
                     }
                     if first_request_key(rc).is_some() {
-                        let pres = pj["resources"].as_object().and_then(|o| o.values().next()).map(|prc| { let t = keystate_tag(prc); match t.as_str() {
+                        // the class the request names, in the parent's own naming (child.rs parent_name_for_rcn)
+                        let prcn = rc["parent_rc_name"].as_str().unwrap_or("?").to_string();
+                        let my_rcn = pj["children"][x]["rcn_map"].as_object().and_then(|m| m.iter().find(|(_, v)| jstr(v) == prcn).map(|(k, _)| k.clone())).unwrap_or(prcn);
+                        let pres = pj["resources"].get(my_rcn.as_str()).map(|prc| { let t = keystate_tag(prc); match t.as_str() {
                             "active" => res_json_mask(&prc["key_state"]["active"]["incoming_cert"]["resources"]),
                             "roll_pending" | "roll_new" => res_json_mask(&prc["key_state"][t.as_str()][1]["incoming_cert"]["resources"]),
                             "roll_old" => res_json_mask(&prc["key_state"]["roll_old"][0]["incoming_cert"]["resources"]), _ => 0 } }).unwrap_or(0);
+                        // the parent no longer has that class (dropped / removed and re-created under another name), it has
+                        // no certified key, or nothing of the entitlement is left in it
                         if pres & res_json_mask(&ent) == 0 { blocked_request = true; }
                     }
                 }
@@ -752,7 +758,8 @@ fn run_history(args: &Args, hist: u64, seed: u64, n_ops: u64, out: &Mutex<Out>) 
                 1 => (json!({"op": "sync_repo", "ca": x}), sys.sync_repo(x).map(|_| ()).map_err(|e| e.to_string())),
                 _ => { let d = format!("AS{} => AS{}", 64512 + rng.below(4), 64600 + rng.below(3)); (json!({"op": "aspa_add", "ca": x, "def": d}), sys.aspas_update(x, &[&d], &[]).map_err(|e| e.to_string())) }
             },
-            8 => { // --rollshrink: the entitlement shrinks between key-roll initiation and activation (finding F04c)
+            8 => { // --rollshrink: the entitlement shrinks between key-roll initiation and activation (finding F04c, repaired by 0ff85b31:
+                   // the activation now drops what the new certificate does not hold - must pass)
                 already_emitted = true;
                 let (p, x) = *rng.pick(&[("b", "c"), ("c", "e"), ("a", "b")]);
                 let op = json!({"op": "rollshrink", "parent": p, "child": x});
